@@ -13,7 +13,7 @@ import subprocess
 import sys
 import time
 
-MUT = "/tmp/mut"
+MUT = os.environ.get("MUTDIR", "/tmp/mut")
 VERIF = os.path.dirname(os.path.dirname(os.path.abspath(__file__)))
 RES = os.path.join(MUT, "results.json")
 
